@@ -150,6 +150,10 @@ func (b *Batch) Delete(key []byte) error {
 	b.mu.Lock()
 	defer b.mu.Unlock()
 
+	if b.committed {
+		return ErrBatchCommitted
+	}
+
 	logRecord := b.findPendingRecord(key)
 
 	// 缓存命中, 直接操作缓存
